@@ -78,6 +78,29 @@ func getIdentity(keyID string, n int) *identity {
 	return id
 }
 
+// getIdentityLong: as getIdentity, valid from 1951 to 2090 (for signing times far from today)
+func getIdentityLong(keyID string, n int) *identity {
+	k := fmt.Sprintf("%s/%d/long", keyID, n)
+	identMu.Lock()
+	defer identMu.Unlock()
+	if id, ok := idents[k]; ok {
+		return id
+	}
+	specs := validSpecs(n, "cs", keyID, func(i int) string { return fmt.Sprintf("ec256-%d", 70+i) })
+	for i := range specs {
+		specs[i].CN = fmt.Sprintf("idlong-%s-%d-of-%d", keyID, i, n)
+		specs[i].NotBefore = time.Date(1951, 1, 1, 0, 0, 0, 0, time.UTC)
+		specs[i].NotAfter = time.Date(2090, 1, 1, 0, 0, 0, 0, time.UTC)
+	}
+	chain, iss, err := buildChain(specs)
+	if err != nil {
+		panic(err)
+	}
+	id := &identity{keyID: keyID, chain: chain, iss: iss, alg: algForKey(keyID)}
+	idents[k] = id
+	return id
+}
+
 const ctyNotary = "application/vnd.cncf.notary.payload.v1+json"
 
 // conformant protected header members
